@@ -2214,7 +2214,8 @@ func delAMPSettleIndex(invoiceNum []byte, invoices,
 	return nil
 }
 
-// DeleteCanceledInvoices deletes all canceled invoices from the database.
+// DeleteCanceledInvoices deletes all canceled invoices that never recorded an
+// htlc from the database.
 func (d *DB) DeleteCanceledInvoices(_ context.Context) error {
 	return kvdb.Update(d, func(tx kvdb.RwTx) error {
 		invoices := tx.ReadWriteBucket(invoiceBucket)
@@ -2259,6 +2260,13 @@ func (d *DB) DeleteCanceledInvoices(_ context.Context) error {
 			}
 
 			if invoice.State != invpkg.ContractCanceled {
+				return nil
+			}
+
+			// An invoice that recorded htlcs is kept: those records
+			// are the only means to recognize a replayed htlc and
+			// to give it the verdict it got the first time.
+			if len(invoice.Htlcs) != 0 {
 				return nil
 			}
 
